@@ -63,6 +63,9 @@ def units(tier, seed):
     for fr in ("base_link", "map"):
         for k in range(4):
             u.append(dict(kind="multi", frame=fr, chunk=[k, 4], tier=tier))
+    # one analyzer reused: add(A), read, clear(), add(B)
+    for k in range(8):
+        u.append(dict(kind="reuse", chunk=[k, 8], tier=tier))
     return u
 
 
@@ -75,6 +78,17 @@ def run_unit(unit, acc):
     sc = _scenes(unit["tier"])
     k, n = unit["chunk"]
     ego = list(G.ego_menu(_SEED[0])[1])
+    if unit["kind"] == "reuse":
+        small = sc[:24]
+        idx = 0
+        for a in small:
+            for b in small:
+                idx += 1
+                if idx % n != k or a is b:
+                    continue
+                check_case(dict(kind="reuse", frame="base_link", policy="DEFAULT", areas=1, crit="box_per_label", ego=ego,
+                                scenes=[[dict(ests=a[0], gts=a[1])], [dict(ests=b[0], gts=b[1])]]), acc)
+        return
     if unit["kind"] == "single":
         for i, (es, gs) in enumerate(sc):
             if i % n != k:
@@ -106,6 +120,33 @@ def check_case(case, acc):
         acc.violation(sig, msg + " | frame=%s policy=%s areas=%s crit=%s" % (fr_id, case["policy"], case["areas"], case["crit"]), case)
 
     an = PerceptionAnalyzer3D(ec, case["areas"])
+    if case["kind"] == "reuse":
+        # the table of run B built on an analyzer that already tabulated (and was asked about) run A and was then cleared
+        counts = []
+        for which, frames in enumerate(case["scenes"]):
+            f = frames[0]
+            ests = [G.mk3d(dict(s, t=100), fr_id, ego) for s in f["ests"]]
+            gts = [G.mk3d(dict(s, t=100), fr_id, ego) for s in f["gts"]]
+            res = get_object_results(EvaluationTask.DETECTION, ests, gts, ec.target_labels, MatchingLabelPolicy[case["policy"]], transforms=G.transforms(ego))
+            fr = F.evaluate_frame(ec, res, gts, ego, S.CRIT[case["crit"]], S.THR["per_label"], unix_time=100, name="0")
+            acc.exec(2)
+            an.add([fr])
+            p = fr.pass_fail_result
+            want = (len(p.tp_object_results), len(p.fp_object_results), len(p.tn_objects), len(p.fn_objects), len(fr.object_results))
+            try:
+                got = (an.num_tp, an.num_fp, an.num_tn, an.num_fn, an.num_estimation)
+            except Exception as ex:  # noqa
+                got = repr(ex)
+            counts.append((want, got, len(an.df)))
+            if which == 0:
+                an.clear()
+        acc.compared()
+        (wa, ga, la), (wb, gb, lb) = counts
+        if gb != wb:
+            bad("reuse:stale-after-clear", "after add(A), reading the counts, clear() and add(B) the analyzer reports (tp, fp, tn, fn, est) = %s, run B holds %s (run A held %s; %d / %d rows)" % (gb, wb, wa, la, lb))
+        acc.state(("reuse", wa, wb, la == lb), nontrivial=la == lb and wa != wb)
+        acc.outcome(("reuse", wb))
+        return
     all_frames = []       # (scene index, frame result, ests, gts, est specs, gt specs)
     for si, frames in enumerate(case["scenes"]):
         frs = []
@@ -275,11 +316,23 @@ def check_case(case, acc):
         wantids = pair_ids(lambda r: r["distance"] is not None and not (isinstance(r["distance"], float) and math.isnan(r["distance"])) and lo <= r["distance"] < hi)
         if set(sub.index.get_level_values(0)) != wantids:
             bad("selection:distance", "distance selection [%s, %s) returns pairs %s, matching pairs are %s" % (lo, hi, sorted(set(sub.index.get_level_values(0))), sorted(wantids)))
-        # area index of every estimate row follows the documented layout
-        if case["areas"] == 1:
-            for _, row in df.xs("estimation", level=1).iterrows():
-                if row["status"] is not None and not (isinstance(row["status"], float)) and row["area"] != 0:
-                    bad("area", "with one area every row inside the range belongs to area 0, got %r" % (row["area"],))
+        # the area index of every row pair is consistent with the ego-frame position of the object it is derived from (the estimate
+        # of a pair, the ground truth of a GT-only row), judged against the analyzer's own area rectangles
+        ur, bl = an.upper_rights, an.bottom_lefts
+        for idx, grp in df.groupby(level=0):
+            e_row, g_row = grp.xs("estimation", level=1).iloc[0], grp.xs("ground_truth", level=1).iloc[0]
+            src = e_row if isinstance(e_row["uuid"], str) else g_row
+            if not isinstance(src["uuid"], str):
+                continue
+            sp = specs.get((int(src["scene"]), int(src["frame"]), src["uuid"]))
+            if sp is None:
+                continue
+            inside = [(sp["x"] < ur[a][0]) and (sp["x"] > bl[a][0]) and (sp["y"] > ur[a][1]) and (sp["y"] < bl[a][1]) for a in range(len(ur))]
+            want_area = inside.index(True) if any(inside) else None
+            got_area = src["area"]
+            got_area = None if (got_area is None or (isinstance(got_area, float) and math.isnan(got_area))) else int(got_area)
+            if got_area != want_area:
+                bad("area:" + fr_id, "row %s at ego-frame (%.3f, %.3f) is assigned to area %r, its position lies in area %r of %d" % (src["uuid"], sp["x"], sp["y"], got_area, want_area, len(ur)))
     # ---- per-object status tallies ---------------------------------------------------------------
     for si in range(len(case["scenes"])):
         frs = [fr for s, fr, *_ in all_frames if s == si]
